@@ -162,6 +162,8 @@ func (server *CqlServer) Start(ctx context.Context) (err error) {
 		log.Debug().Msgf("%v: server is starting", server)
 		server.connectionsHandler, err = newClientConnectionHandler(server.String(), server.MaxConnections)
 		if err != nil {
+			// nothing was started: the server is not running and there is nothing to close
+			server.transitionState(ServerStateRunning, ServerStateNotStarted)
 			return fmt.Errorf("%v: start failed: %w", server, err)
 		}
 		if server.TLSConfig != nil {
@@ -170,6 +172,7 @@ func (server *CqlServer) Start(ctx context.Context) (err error) {
 			server.listener, err = net.Listen("tcp", server.ListenAddress)
 		}
 		if err != nil {
+			server.transitionState(ServerStateRunning, ServerStateNotStarted)
 			return fmt.Errorf("%v: start failed: %w", server, err)
 		}
 		server.ctx, server.cancel = context.WithCancel(ctx)
